@@ -178,8 +178,10 @@ func TestC06Volume(t *testing.T) {
 func genC06Long(t *rapid.T) Hist {
 	var hst Hist
 	cost := rapid.SampledFrom([]int{1, 3, 7}).Draw(t, "cost")
-	money := int64(cost) * int64(rapid.IntRange(2000, 6000).Draw(t, "money"))
-	hst.Subs = []Sub{{Acct: [3]Acct{{cost, money}, {cost, money / 2}, {cost, 500}}}}
+	// enough money for the first half of the history: the request counter passes its thresholds while the account is
+	// still being debited, the money runs out afterwards (once it has, the known over-grant ends what can be judged)
+	money := int64(cost) * int64(rapid.IntRange(12000, 16000).Draw(t, "money"))
+	hst.Subs = []Sub{{Acct: [3]Acct{{cost, money}, {cost, money / 8}, {cost, 500}}}}
 	hst.Ops = append(hst.Ops, Op{K: "create", S: 0, Name: "smf", UUs: []UU{{RG: 1, Req: 100}}})
 	n := h.Scale(320, 3000)
 	for i := 0; i < n; i++ {
@@ -189,13 +191,11 @@ func genC06Long(t *rapid.T) Hist {
 		}
 		op := Op{K: "update", S: 0, UUs: []UU{{RG: rg, Req: int32(50 + i%200), Conts: []Cont{{Q: "online", Pm: (i * 37) % 1001}}}}}
 		switch {
-		case i%97 == 96:
-			op = Op{K: "recharge", S: 0, RG: rg, Amt: int64(cost) * 3000}
-		case i == n/4:
+		case i == 12:
 			op = Op{K: "aged", S: 0, RG: 1, Amt: 500}
-		case i == n/2:
+		case i == 40:
 			op = Op{K: "aged", S: 0, RG: 1, Amt: 65530}
-		case i == 3*n/4:
+		case i == 70:
 			op = Op{K: "aged", S: 0, RG: 1, Amt: 1<<32 - 4}
 		}
 		hst.Ops = append(hst.Ops, op)
